@@ -405,6 +405,30 @@ func Run(r *mc.Run) {
 			}
 		}
 	}
+	// the same field names spelled in another letter case in a later paragraph (names are reported as written)
+	recase := func(p gen.DPara, f func(string) string) gen.DPara {
+		q := make(gen.DPara, len(p))
+		for i, fl := range p {
+			q[i] = fl
+			q[i].Name = f(fl.Name)
+		}
+		return q
+	}
+	swapCase := func(s string) string {
+		b := []byte(s)
+		for i, c := range b {
+			switch {
+			case c >= 'a' && c <= 'z':
+				b[i] = c - 32
+			case c >= 'A' && c <= 'Z':
+				b[i] = c + 32
+			}
+		}
+		return string(b)
+	}
+	for _, a := range repParas {
+		multiPara = append(multiPara, gen.DDoc{a, recase(a, swapCase)}, gen.DDoc{recase(a, strings.ToLower), a, recase(a, strings.ToUpper)}, gen.DDoc{a, repParas[0], recase(a, swapCase)})
+	}
 	k := r.Pick(1, 2)
 	run := func(name string, docs []gen.DDoc, k int) {
 		r.Scenario(name, map[string]interface{}{"base_documents": len(docs), "deviation_bound": k, "access_paths": 7}, len(docs), func(i int, st *mc.Stats) bool {
